@@ -58,6 +58,7 @@ class CsvProjectIo(ProjectIoInterface):
             na_values=["None", "none"],
             sep=sep,
             dtype={column: str for column in header if is_text_column(column)},
+            float_precision="round_trip",
         )
         df.columns = [column.lower() for column in df.columns]
         df = df.rename(columns=OPTION_NAMES_DESERIALIZED)
